@@ -96,6 +96,12 @@ fn cases_list(tier: Tier) -> Vec<Value> {
             v.push(json!({"kind": "many-variants", "n": n}));
         }
     }
+    // fields whose type has hand-written to_string / to_json methods (a generic instance, a plain struct, an enum)
+    for holder in ["struct", "variant"] {
+        for inner in ["generic-instance", "plain-struct", "enum"] {
+            v.push(json!({"kind": "hand-written", "holder": holder, "inner": inner}));
+        }
+    }
     for name in ["empty-struct", "unit-variants", "nested", "recursive-enum", "variant-named-like-fields", "struct-in-enum-in-struct"] {
         v.push(json!({"kind": "shape", "name": name}));
     }
@@ -163,6 +169,45 @@ fn build(case: &Value, tier: Tier) -> Option<Program> {
                 emit(&mut b, "En", E::Ctor("En".into(), "One".into(), true, vec![val.clone()], vec![]));
                 let v2 = leaf_values(l2);
                 emit(&mut b, "En", E::Ctor("En".into(), "Two".into(), true, vec![val, v2[i % v2.len()].clone()], vec![]));
+            }
+        }
+        "hand-written" => {
+            let inner = case["inner"].as_str().unwrap();
+            // the inner type is not derived: it brings its own methods, which the generated code must call
+            let (ity, ival): (Ty, E) = match inner {
+                "generic-instance" => {
+                    items.push(Item::Struct(StructDef { name: "Bx".into(), generics: vec!["T".into()], fields: vec![("v".into(), Ty::Param("T".into()))], derives: vec![] }));
+                    (Ty::Named("Bx".into(), vec![Ty::i32()]), E::StructLit("Bx".into(), vec![("v".into(), int(41))], vec![Ty::i32()]))
+                }
+                "plain-struct" => {
+                    items.push(Item::Struct(StructDef { name: "Pl".into(), generics: vec![], fields: vec![("v".into(), Ty::i32())], derives: vec![] }));
+                    (Ty::named("Pl"), E::StructLit("Pl".into(), vec![("v".into(), int(42))], vec![]))
+                }
+                _ => {
+                    items.push(Item::Enum(EnumDef { name: "En2".into(), generics: vec![], variants: vec![("Aa".into(), vec![]), ("Bb".into(), vec![Ty::i32()])], derives: vec![] }));
+                    (Ty::named("En2"), E::Ctor("En2".into(), "Bb".into(), true, vec![int(43)], vec![]))
+                }
+            };
+            let tname = match &ity {
+                Ty::Named(nm, _) => nm.clone(),
+                _ => unreachable!(),
+            };
+            let (s1, s2) = (n.fresh("self"), n.fresh("self"));
+            items.push(Item::Impl(ImplDef {
+                generics: vec![],
+                trait_name: None,
+                for_ty: ity.clone(),
+                methods: vec![
+                    FnDef { name: "to_json".into(), generics: vec![], bounds: vec![], params: vec![(s1, ity.clone())], ret: Some(Ty::Str), body: s(&format!("{{\"hand\":\"{}\"}}", tname)) },
+                    FnDef { name: "to_string".into(), generics: vec![], bounds: vec![], params: vec![(s2, ity.clone())], ret: Some(Ty::Str), body: s(&format!("<{}>", tname)) },
+                ],
+            }));
+            if case["holder"] == "struct" {
+                items.push(Item::Struct(StructDef { name: "Hold".into(), generics: vec![], fields: vec![("id".into(), Ty::i32()), ("item".into(), ity.clone()), ("last".into(), Ty::Bool)], derives: derives() }));
+                emit(&mut b, "Hold", E::StructLit("Hold".into(), vec![("id".into(), int(7)), ("item".into(), ival), ("last".into(), E::Bool(true))], vec![]));
+            } else {
+                items.push(Item::Enum(EnumDef { name: "HoldV".into(), generics: vec![], variants: vec![("Empty".into(), vec![]), ("Full".into(), vec![Ty::i32(), ity.clone()])], derives: derives() }));
+                emit(&mut b, "HoldV", E::Ctor("HoldV".into(), "Full".into(), true, vec![int(7), ival], vec![]));
             }
         }
         "wide-struct" | "wide-variant" => {
@@ -271,7 +316,7 @@ impl Family for Derive {
         &["C18", "C01", "C02", "C04"]
     }
     fn rule(&self) -> &'static str {
-        "derived ToString+ToJson on: a struct and a variant holding every string of length <= 2 (quick) / <= 3 (thorough) over 11 character classes {letter, quote, backslash, slash, space, DEL, é, U+00AD, U+2028, emoji, U+E0001}; structs with 1-2 fields over 7 leaf types x 7 field names (incl. self, tag, fields, x0, ret, value) at boundary values; enums with 0-2 payloads; width: structs with 0..12 (thorough 0..24) fields, variants with 0..12 (0..24) payloads, enums with 1..12 (1..24) variants, leaf types cycling (thorough: 3 rotations); empty struct, unit variants, nested and recursive definitions, variants named tag/fields; 30 unsupported definitions (tuple, array, Vec, Ref, fn, generic instance, non-derived struct fields; generic definitions) that must be rejected before the compile stage. oracle: each to_json line parses with a strict RFC 8259 parser to the same JSON value as the reference rendering; each to_string line equals the reference `Name { f: v }` / `Enum::Variant(v)` rendering. non-trivial = programs whose values contain a character that JSON must escape or a boundary number; distinct = distinct source text"
+        "derived ToString+ToJson on: a struct and a variant holding every string of length <= 2 (quick) / <= 3 (thorough) over 11 character classes {letter, quote, backslash, slash, space, DEL, é, U+00AD, U+2028, emoji, U+E0001}; structs with 1-2 fields over 7 leaf types x 7 field names (incl. self, tag, fields, x0, ret, value) at boundary values; enums with 0-2 payloads; width: structs with 0..12 (thorough 0..24) fields, variants with 0..12 (0..24) payloads, enums with 1..12 (1..24) variants, leaf types cycling (thorough: 3 rotations); fields of a type with hand-written to_string/to_json (generic instance, plain struct, enum) inside a derived struct / variant; empty struct, unit variants, nested and recursive definitions, variants named tag/fields; 30 unsupported definitions (tuple, array, Vec, Ref, fn, generic instance, non-derived struct fields; generic definitions) that must be rejected before the compile stage. oracle: each to_json line parses with a strict RFC 8259 parser to the same JSON value as the reference rendering; each to_string line equals the reference `Name { f: v }` / `Enum::Variant(v)` rendering. non-trivial = programs whose values contain a character that JSON must escape or a boundary number; distinct = distinct source text"
     }
     fn cases(&self, tier: Tier) -> Box<dyn Iterator<Item = Value> + '_> {
         Box::new(cases_list(tier).into_iter())
@@ -328,6 +373,7 @@ impl Family for Derive {
             "struct1" | "struct2" => format!("{};leaf={};field={}", case["kind"].as_str().unwrap(), case["leaf"].as_str().unwrap(), case["field"].as_str().unwrap()),
             "enum-payloads" => format!("enum-payloads;leaf={}", case["leaf"].as_str().unwrap()),
             "wide-struct" | "wide-variant" | "many-variants" => format!("{};n={}", case["kind"].as_str().unwrap(), case["n"]),
+            "hand-written" => format!("hand-written;holder={};inner={}", case["holder"].as_str().unwrap(), case["inner"].as_str().unwrap()),
             _ => format!("shape={}", case["name"].as_str().unwrap_or("?")),
         };
         // every definition built here is one the derive supports: a rejection (generated code failing in the typer) is a finding
